@@ -408,7 +408,13 @@ class Shadow:
             for _ in range(rng.choice([1, 2, 2, 3])):
                 t2 = self.tick()
                 self.emit(f'heartbeat {t2} {self.date} {b}:{j}:{a}', 'heartbeat', replayable=True)
-                self.emit('compact', 'compact:after-usage')
+                if rng.random() < 0.5:
+                    # the worker's next billing updates are committed WHILE the compaction loops run (between their transactions)
+                    t3 = self.tick() + 1
+                    self.ts = t3 + 4
+                    self.emit(f'compact {t3} {self.date} {b}:{j}:{a}', 'compact:with-concurrent-billing-update')
+                else:
+                    self.emit('compact', 'compact:after-usage')
         elif name == 'resources-again':
             # the resources of an attempt are registered a second time with OTHER quantities after usage accrued (job-private: the driver
             # registers whole-machine figures in mark_job_creating, the worker's job_started sends its own; a repeated report with a
